@@ -84,6 +84,12 @@ func configs() []config {
 		o.MaxImage = 700
 		out = append(out, config{name: "no-access-control-256", o: o, maxLe: 256, pwKind: 3})
 	}
+	{
+		// no access control, Active Authentication only (DG15 without DG14)
+		o := base("c11-open-aa")
+		o.Access, o.AA, o.AARSABits = "NONE", "RSA", 1024
+		out = append(out, config{name: "no-access-control+AA", o: o, pwKind: 3})
+	}
 	return out
 }
 
@@ -292,14 +298,23 @@ func runFaulted(t interface {
 	rep := map[string]any{"config": c.name, "plan": planString(plan), "faultFreeExchanges": b.exchanges}
 	var r *readcheck.Result
 	var err error
-	func() {
-		defer func() {
-			if e := recover(); e != nil {
-				evid.Fail(t, check+"-panic", rep, "panic escaped ReadDocument: %v", e)
-			}
-		}()
+	var escaped any
+	back, dump := evid.Watch(func() {
+		defer func() { escaped = recover() }()
 		r, err = readcheck.Read(b.p, in, c.readOpts())
-	}()
+	})
+	if !back {
+		// "never crashes or loops": the read neither returned nor sent another command for evid.HangLimit
+		rep["fired"], rep["exchanges"] = in.Fired, in.n
+		if i := strings.Index(dump, "reader.(*Reader).ReadDocument"); i >= 0 {
+			dump = dump[max(0, i-1500):min(len(dump), i+1500)]
+		}
+		rep["goroutines"] = dump
+		evid.Abort(check+"-hang", rep, "ReadDocument did not return within %v after the fault (%d exchanges done; fault-free read: %d): endless loop or deadlock", evid.HangLimit, in.n, b.exchanges)
+	}
+	if escaped != nil {
+		evid.Fail(t, check+"-panic", rep, "panic escaped ReadDocument: %v", escaped)
+	}
 	if err != nil {
 		evid.Fail(t, check+"-setup", rep, "%v", err)
 	}
@@ -382,7 +397,9 @@ func runFaulted(t interface {
 			evid.Count("fault-recorded-as-failed-step", 1)
 		case len(missingFiles) == 0 && len(missingSteps) == 0:
 			evid.Count("fault-absorbed", 1)
-		case in.Absence:
+		case in.Absence && !contains(missingFiles, "DG14") && !contains(missingFiles, "DG15"):
+			// (DG14 / DG15 are different: the security object lists them, so their absence IS visible
+			// to the reader - the completeness check must record it)
 			evid.Count("fault-indistinguishable-from-absent-file", 1)
 		default:
 			rep["missingFiles"], rep["stepsSilentlyMissing"] = missingFiles, missingSteps
@@ -435,6 +452,15 @@ func filesOK(p *persona.Persona, r *readcheck.Result, in *injector) string {
 	return ""
 }
 
+func contains(v []string, s string) bool {
+	for _, e := range v {
+		if e == s {
+			return true
+		}
+	}
+	return false
+}
+
 func planString(plan map[int]int) string {
 	s := ""
 	for k := 0; k < 100000 && len(s) < 400; k++ {
@@ -455,6 +481,9 @@ func TestSingleFaultEnumeration(t *testing.T) {
 		evid.Metric("fault-free-exchanges-"+c.name, b.exchanges)
 		for k := 0; k < b.exchanges; k++ {
 			for f := range faultKinds {
+				if f == sweepKind {
+					continue // parameterised kind of the byte sweep
+				}
 				idx++
 				if !evid.MineIdx(idx) {
 					continue
@@ -472,6 +501,61 @@ func TestSingleFaultEnumeration(t *testing.T) {
 	evid.Exhaustive("single-fault-every-exchange-every-kind", complete)
 }
 
+// TestUnprotectedResponseByteSweep: on every exchange whose response travels without secure messaging
+// (EF.CardAccess before the channel exists, everything on a chip without access control) EVERY octet of the
+// response is damaged in turn (two bit patterns), not just the four positions of the fixed fault kinds.
+func TestUnprotectedResponseByteSweep(t *testing.T) {
+	cfgs := configs()
+	idx := 0
+	for _, c := range cfgs {
+		b := faultFree(t, c)
+		// the fault-free transcript tells which exchanges are unprotected and how long their responses are
+		chip := b.p.NewChip()
+		in := &injector{chip: chip, plan: map[int]int{}}
+		if _, err := readcheck.Read(b.p, in, c.readOpts()); err != nil {
+			evid.Infra(t, "transcript read: %v", err)
+		}
+		for k, ex := range chip.Transcript {
+			if ex.Protected || len(ex.Rsp) < 3 || len(ex.Rsp) > 400 {
+				continue
+			}
+			if c.o.Access == "NONE" && k > 12 && evid.Tier() == "quick" {
+				break // quick: the first files of an open chip; thorough: all of them
+			}
+			for pos := 0; pos < len(ex.Rsp)-2; pos++ {
+				for _, mask := range []byte{0x20, 0x01} {
+					idx++
+					if !evid.MineIdx(idx) {
+						continue
+					}
+					sweepPos, sweepMask = pos, mask
+					reached := runFaulted(t, c, b, map[int]int{k: sweepKind}, "sweep")
+					evid.Case("sweep/"+c.name, reached, fmt.Sprintf("%s/%d/%d/%02x", c.name, k, pos, mask),
+						map[string]any{"config": c.name, "exchange": k, "position": pos, "xor": mask, "response_len": len(ex.Rsp)})
+				}
+			}
+		}
+	}
+}
+
+// sweepKind is the index of the parameterised fault kind used by the byte sweep.
+var (
+	sweepKind = -1
+	sweepPos  int
+	sweepMask byte
+	_         struct{} = func() struct{} {
+		faultKinds = append(faultKinds, faultKind{name: "garbled-at-position", apply: func(g, prev []byte) []byte {
+			o := append([]byte{}, g...)
+			if sweepPos < len(o) {
+				o[sweepPos] ^= sweepMask
+			}
+			return o
+		}})
+		sweepKind = len(faultKinds) - 1
+		return struct{}{}
+	}()
+)
+
 // TestMultiFaultSequences: random sequences of 2-5 faults.
 func TestMultiFaultSequences(t *testing.T) {
 	cfgs := configs()
@@ -488,7 +572,7 @@ func TestMultiFaultSequences(t *testing.T) {
 		plan := map[int]int{}
 		for i := 0; i < n; i++ {
 			k := rapid.IntRange(0, b.exchanges+5).Draw(rt, "k")
-			plan[k] = rapid.IntRange(0, len(faultKinds)-1).Draw(rt, "kind")
+			plan[k] = rapid.IntRange(0, len(faultKinds)-2).Draw(rt, "kind") // (the last kind belongs to the byte sweep)
 		}
 		reached := runFaulted(rt, cfgs[ci], b, plan, "multi")
 		evid.Case("multi/"+cfgs[ci].name, true, fmt.Sprintf("%s/%s", cfgs[ci].name, planString(plan)), map[string]any{"config": cfgs[ci].name, "plan": planString(plan), "allReached": reached})
